@@ -33,6 +33,11 @@ struct File {
 }
 
 pub fn load(path: &Path) -> Result<Vec<Known>, String> {
+    // maintenance aid: VERIF_NO_KNOWN=1 reports every known finding as a violation again
+    // (used to regenerate the committed replay file of each finding)
+    if std::env::var("VERIF_NO_KNOWN").is_ok() {
+        return Ok(vec![]);
+    }
     if !path.exists() {
         return Ok(vec![]);
     }
